@@ -7,10 +7,12 @@ sys.path.insert(0, ROOT)
 props = [json.loads(l)["id"] for l in open(os.path.join(ROOT, "properties.jsonl"))]
 na_file = os.path.join(ROOT, "tools", "not_applicable.json")
 na_reasons = json.load(open(na_file)) if os.path.exists(na_file) else {}
+ready_file = os.path.join(ROOT, "tools", "ready.json")
+ready = set(json.load(open(ready_file))) if os.path.exists(ready_file) else None
 checks, na = [], []
 for pid in props:
     path = os.path.join(ROOT, "checklib", "props", pid.lower() + ".py")
-    if pid in na_reasons or not os.path.exists(path):
+    if pid in na_reasons or not os.path.exists(path) or (ready is not None and pid not in ready):
         na.append({"property_id": pid, "reason": na_reasons.get(pid, "check not built yet (work in progress; see DESIGN.md §5 for the plan)")})
         continue
     m = importlib.import_module("checklib.props." + pid.lower()).MANIFEST
